@@ -126,6 +126,10 @@ def main():
         except Exception:
             pass
         reexec_with_hashseed(hs)
+        if prop == "C13":
+            from sim import c13
+
+            return c13.replay(args.replay)
         return run_replay(prop, args.replay)
 
     reexec_with_hashseed(0)
